@@ -36,65 +36,7 @@ type ExactCase struct {
 }
 
 // exact compares every branch's recorded split with the reference reading of the text.
-func exact(t *tree.Tree) error {
-	m, err := gt.Read(t)
-	if err != nil {
-		return err
-	}
-	tx, err := ref.NewTaxa(m.Tips())
-	if err != nil {
-		return err
-	}
-	n := tx.N()
-	for i, name := range tx.Names {
-		idx, err := t.TipIndex(name)
-		if err != nil {
-			return fmt.Errorf("TipIndex(%q): %v", name, err)
-		}
-		if idx != i {
-			return fmt.Errorf("TipIndex(%q) = %d, rank in sorted names is %d", name, idx, i)
-		}
-	}
-	cl, err := tx.Clades(m)
-	if err != nil {
-		return err
-	}
-	pairs, err := gt.PairEdges(t, m)
-	if err != nil {
-		return err
-	}
-	for _, p := range pairs {
-		below := cl[p.M]
-		k := below.Count()
-		bs := p.E.Bitset()
-		if bs == nil {
-			return fmt.Errorf("nil bitset on the branch above %v", tx.NamesOf(below))
-		}
-		if int(bs.Len()) != n {
-			return fmt.Errorf("bitset of width %d in a tree with %d tips", bs.Len(), n)
-		}
-		for i := 0; i < n; i++ {
-			if bs.Test(uint(i)) != below.Has(i) {
-				return fmt.Errorf("branch above %v: bitset says tip %q is %v", tx.NamesOf(below), tx.Names[i], bs.Test(uint(i)))
-			}
-		}
-		if p.E.NumTipsRight() != k || p.E.NumTipsLeft() != n-k {
-			return fmt.Errorf("branch above %v: tip counts %d/%d, expected %d/%d", tx.NamesOf(below), p.E.NumTipsRight(), p.E.NumTipsLeft(), k, n-k)
-		}
-		d, err := p.E.TopoDepth()
-		min := k
-		if n-k < k {
-			min = n - k
-		}
-		if min == 0 {
-			continue // only under a single-child root
-		}
-		if err != nil || d != min {
-			return fmt.Errorf("branch above %v: topological depth %d (%v), expected %d", tx.NamesOf(below), d, err, min)
-		}
-	}
-	return nil
-}
+func exact(t *tree.Tree) error { return gt.IndexesExact(t) }
 
 func checkExact(c ExactCase) error {
 	t, err := gt.FromModel(c.Tree)
@@ -108,8 +50,10 @@ func checkExact(c ExactCase) error {
 		return fmt.Errorf("fresh tree %s: %v", ref.Write(c.Tree), err)
 	}
 	st := ops.State{T: t}
+	indexed := true
 	for i, op := range c.Ops {
 		before := st.T.Newick()
+		obj := st.T
 		status, err := ops.Apply(&st, op)
 		if status == ops.Skipped {
 			continue
@@ -118,11 +62,21 @@ func checkExact(c ExactCase) error {
 			if st.T, err = gt.Parse(before); err != nil {
 				return err
 			}
+			indexed = false
 			continue
 		}
 		if len(st.T.Tips()) < 3 {
 			break
 		}
+		// operations that recompute the indexes themselves (they end with ReinitIndexes or
+		// UpdateTipIndex + ReinitInternalIndexes) must leave them describing the new tree when
+		// the tree was indexed before
+		if indexed && st.T == obj && selfRefreshing[op.Kind] {
+			if err := exact(st.T); err != nil {
+				return fmt.Errorf("step %d (%s) recomputes the indexes itself, but right after it (before any ReinitIndexes) they do not describe the tree: %v\n before %s\n after  %s", i, op.Kind, err, before, st.T.Newick())
+			}
+		}
+		indexed = true
 		if err := st.T.ReinitIndexes(); err != nil {
 			return fmt.Errorf("ReinitIndexes after step %d (%s): %v", i, op.Kind, err)
 		}
@@ -132,6 +86,9 @@ func checkExact(c ExactCase) error {
 	}
 	return nil
 }
+
+var selfRefreshing = map[string]bool{"reroot": true, "outgroup": true, "midpoint": true, "unroot": true, "prune": true, "collapse_len": true,
+	"collapse_sup": true, "collapse_depth": true, "resolve": true, "single_nodes": true, "identical": true, "shuffle_tips": true, "merge": true}
 
 var editKinds = []string{"reroot", "outgroup", "midpoint", "unroot", "prune", "collapse_len", "collapse_sup", "collapse_depth",
 	"resolve", "rotate", "sort", "graft", "merge", "identical", "single_nodes", "nni", "nni_undo", "rename", "shuffle_tips", "clone", "subtree"}
